@@ -245,6 +245,15 @@ func vfC18Run(t *testing.T, ops []string, npeers int) (string, []vfC18Obs, bool)
 					t.Fatal(err)
 				}
 				acts = append(acts, "ACreate")
+			case 'Y':
+				// another handler on the same topic comes and goes (cancelled twice: harmless); handlers are independent, so the
+				// one under observation must not notice
+				h2, err := topic.EventHandler()
+				if err != nil {
+					t.Fatal(err)
+				}
+				h2.Cancel()
+				h2.Cancel()
 			case 'X':
 				if h == nil {
 					continue
@@ -426,8 +435,10 @@ func TestVF_C18(t *testing.T) {
 				op = "n"
 			case r < 93:
 				op = fmt.Sprintf("K%d", rng.Intn(4))
-			case r < 97:
+			case r < 96:
 				op = "Z"
+			case r < 97:
+				op = "Y"
 			case r < 98:
 				op = "X"
 			default:
